@@ -213,6 +213,24 @@ func genC19(g *Rng, tier string) *Plan {
 			st = c19Step{Op: "restart"}
 		}
 		steps = append(steps, st)
+		// probe right after a state change: the interesting disagreements sit there
+		if g.Bool(0.5) {
+			probeSP := g.Intn(c19NSP)
+			switch st.Op {
+			case "delete_session":
+				steps = append(steps, Pick(g, c19Step{Op: "sso", SP: probeSP, Cookie: "slot", Slot: st.Slot, Bind: "redirect"}, c19Step{Op: "shortcut", Sc: Pick(g, c19Scs...), Cookie: "slot", Slot: st.Slot}))
+			case "advance":
+				if st.Ms < 0 || st.Ms >= 3_600_000 {
+					steps = append(steps, c19Step{Op: "sso", SP: probeSP, Cookie: "slot", Slot: st.Slot, Bind: "redirect"})
+				}
+			case "delete_user", "put_user", "seed_user":
+				steps = append(steps, Pick(g, c19Step{Op: "login", User: st.User, Pw: "right"}, c19Step{Op: "sso", SP: probeSP, Cookie: "none", User: st.User, Pw: Pick(g, "right", "empty", "wrong"), Bind: "post"}))
+			case "put_service", "delete_service":
+				steps = append(steps, c19Step{Op: "sso", SP: g.Intn(c19NSP), Cookie: "slot", Slot: g.Intn(2), Bind: "redirect"})
+			case "put_shortcut", "delete_shortcut":
+				steps = append(steps, c19Step{Op: "shortcut", Sc: st.Sc, Cookie: "slot", Slot: g.Intn(2)})
+			}
+		}
 	}
 	for _, s := range steps {
 		p.Steps = append(p.Steps, mustJSON(s))
@@ -255,8 +273,10 @@ type c19World struct {
 	users     map[string]mUser
 	services  map[string]int // name -> SP identity
 	shortcuts map[string]mShortcut
-	sessions  []mSession // browser slots
-	faulted   bool       // a store fault has fired: only safety is checked from here on
+	sessions  []mSession   // browser slots
+	faulted   bool         // a store fault has fired: only safety is checked from here on
+	maybeReg  map[int]bool // SP identities whose registration is ambiguous: a service change was cut short by a store fault (un-acknowledged: old or new)
+	lastAlt   c19Outcome   // expectation of the last step if every ambiguous SP counts as registered
 	sps       []*saml.ServiceProvider
 	seedTag   uint64
 }
@@ -288,6 +308,9 @@ func (w *c19World) fork() *c19World {
 		n.shortcuts[k] = v
 	}
 	n.sessions = append([]mSession(nil), w.sessions...)
+	for k := range w.maybeReg {
+		n.markAmbiguous(k)
+	}
 	return n
 }
 
@@ -300,6 +323,18 @@ func (w *c19World) registered(sp int) bool {
 		}
 	}
 	return false
+}
+
+// markAmbiguous records that a service change was interrupted by a store fault and answered with an
+// error: the caller cannot know whether it took effect, and the statement's "registered at that
+// moment" is satisfied by either reading.
+func (w *c19World) markAmbiguous(sps ...int) {
+	if w.maybeReg == nil {
+		w.maybeReg = map[int]bool{}
+	}
+	for _, sp := range sps {
+		w.maybeReg[sp] = true
+	}
 }
 
 func (w *c19World) liveSession(st c19Step) (*mSession, string) {
@@ -390,6 +425,7 @@ func (w *c19World) step(st c19Step, res *Result) (expected, observed c19Outcome,
 		if err := w.newServer(); err != nil {
 			return c19Outcome{Class: "OK"}, c19Outcome{Class: "ERROR", Detail: "restart failed"}, w.store.fired != "", "", true, nil
 		}
+		w.maybeReg = nil // the registry was rebuilt from the store
 		return c19Outcome{Class: "OK"}, c19Outcome{Class: "OK"}, false, "", true, nil
 	case "advance":
 		d := st.Ms
@@ -464,15 +500,25 @@ func (w *c19World) step(st c19Step, res *Result) (expected, observed c19Outcome,
 			body = string(b)
 			expected = c19Outcome{Class: "OK"}
 		}
+		oldSP, hadOld := w.services[st.Svc]
 		rep = deliver(w.srv, "PUT", base+key, body, "", nil)
 		if !st.Bad && w.applied(key, prev, before) {
 			w.services[st.Svc] = st.SP
 		}
+		if w.store.fired != before {
+			w.markAmbiguous(st.SP)
+			if hadOld {
+				w.markAmbiguous(oldSP)
+			}
+		}
 	case "delete_service":
 		key := "/services/" + st.Svc
 		prev := w.store.data[key]
-		_, present := w.services[st.Svc]
+		oldSP, present := w.services[st.Svc]
 		rep = deliver(w.srv, "DELETE", base+key, "", "", nil)
+		if present && w.store.fired != before {
+			w.markAmbiguous(oldSP)
+		}
 		expected = c19Outcome{Class: "OK"}
 		if !present {
 			expected = c19Outcome{Class: "ERROR"}
@@ -548,6 +594,16 @@ func (w *c19World) step(st c19Step, res *Result) (expected, observed c19Outcome,
 		} else {
 			rep = deliver(w.srv, "GET", u.String(), "", "", cookies)
 		}
+		w.lastAlt = c19Outcome{}
+		if !w.registered(st.SP) && w.maybeReg[st.SP] {
+			// what the reply may also be if the interrupted service change is read the other way
+			switch {
+			case st.User != "" && w.credsValid(st.User, pw):
+				w.lastAlt = c19Outcome{Class: "ASSERTION", Detail: c19AssertionDetail(w.users[st.User].A, st.SP, "relay-"+fmt.Sprint(st.SP))}
+			case st.User == "" && w.sessState(sess) != 2:
+				w.lastAlt = c19Outcome{Class: "ASSERTION", Detail: c19AssertionDetail(sess.Snap, st.SP, "relay-"+fmt.Sprint(st.SP))}
+			}
+		}
 		switch {
 		case !w.registered(st.SP):
 			expected = c19Outcome{Class: "ERROR"}
@@ -590,6 +646,10 @@ func (w *c19World) step(st c19Step, res *Result) (expected, observed c19Outcome,
 					relay = "/" + st.Relay
 				}
 			}
+		}
+		w.lastAlt = c19Outcome{}
+		if ok && w.sessState(sess) != 2 && !w.registered(sc.SP) && w.maybeReg[sc.SP] {
+			w.lastAlt = c19Outcome{Class: "ASSERTION", Detail: c19AssertionDetail(sess.Snap, sc.SP, relay)}
 		}
 		switch {
 		case !ok:
@@ -973,6 +1033,10 @@ func execC19(t *testing.T, p *Plan) *Result {
 							continue
 						}
 						exp, obs, dc, leak, well, pan := fw.step(st, res)
+						if fw.faulted && (st.Op == "sso" || st.Op == "shortcut") && fw.lastAlt.Class != "" && obs == fw.lastAlt {
+							res.Extra["ambiguous_registration_accepted"]++
+							continue
+						}
 						if !c19CheckStep(res, i, fmt.Sprintf("fault %s@call%d", kind, j), st, exp, obs, dc, leak, well, pan, fw.faulted) {
 							res.logf("fault %s at store call %d (%s): step %d %s expect=%s observed=%s", kind, j, fw.store.fired, i, c19Describe(st), exp, obs)
 							return res
